@@ -153,7 +153,7 @@ func fmtGenCfg(thorough bool) string {
 		t = "TRUE"
 	}
 	return `CONSTANTS
- Families = {"prec","oppair","signs","depth3","stmtpair","stmt","comment","string","literal","func","fnbody"}
+ Families = {"prec","oppair","signs","depth3","stmtpair","stmt","comment","string","literal","func","fnbody","spine","sibling"}
  Thorough = ` + t + "\nINIT Init\nNEXT Next\n"
 }
 
@@ -291,6 +291,11 @@ var fmtPinned = []string{
 	"a; (b + c) * d", "a; [1, 2][0]",
 	"// c\n-a", "1 + // c\n2",
 	"// a\n;// b\n",
+	"a ^ (((b - c) ^ d) ^ e)", "a * (((b % c) * d) * e)", // seed C02/4: the whole left spine of the right operand counts
+	"x = a - -9223372036854775808", "f(a - -0x8000000000000000)", "i-- - -9223372036854775808", // seed C03/6: an int token that starts with a sign
+	"- -9223372036854775808",                                      // fmt-prefix-minus-before-min-int-literal-printed-as-decrement
+	"a.(b + c)", "m.(1 + 2)", "a.(f(1))", "a.(b.c)", "a.(x => x)", // fmt-dot-index-expression-loses-parens
+	"if a { b /* c */ } else { d }", "f(func(){ a /* c */ }, func() { b })", // fmt-block-first-statement-placed-by-last-comment-of-previous-block
 }
 
 var fnPinned = []string{"f = x => {return x}", "f = x => {y = x}", "f = x => {x && y}", "f = func(a) {}", "f = x => {(y => y)(x)}"}
